@@ -66,6 +66,8 @@ mod imp {
         PrintApply { a: String, f: String, arg: i64 },   // println(a(f, arg)): a takes a function value and has no globals
         PrintLit { text: String },
         Raw { text: String },                 // compile-time rejected text
+        Needs { text: String },               // an import statement (accepted, prints nothing)
+        PrintExpr { text: String, value: i64 }, // println(<use of an imported name>), prints value
     }
     #[derive(Clone, Debug, PartialEq)]
     pub enum Step {
@@ -94,15 +96,17 @@ mod imp {
             Stmt::PrintApply { a, f, arg } => format!("println({}({}, {}))", a, f, arg),
             Stmt::PrintLit { text } => format!("println(\"{}\")", text),
             Stmt::Raw { text } => text.clone(),
+            Stmt::Needs { text } => text.clone(),
+            Stmt::PrintExpr { text, .. } => format!("println({})", text),
         }
     }
     pub fn render(stmts: &[Stmt]) -> String { stmts.iter().map(render_stmt).collect::<Vec<_>>().join("\n") + "\n" }
 
     #[derive(Clone)]
-    pub struct Oracle { pub vars: HashMap<String, (Val, bool)>, pub fns: HashMap<String, FnDef> }
+    pub struct Oracle { pub vars: HashMap<String, (Val, bool)>, pub fns: HashMap<String, FnDef>, pub imported: HashMap<String, i64> }
     pub struct OStep { pub class: &'static str, pub output: String, pub value: String }
     impl Oracle {
-        pub fn new() -> Self { Oracle { vars: HashMap::new(), fns: HashMap::new() } }
+        pub fn new() -> Self { Oracle { vars: HashMap::new(), fns: HashMap::new(), imported: HashMap::new() } }
         /// Err(()) = runtime failure (division by zero)
         fn call(&mut self, f: &str, arg: i64, out: &mut String) -> Result<i64, ()> {
             let d = self.fns.get(f).cloned().ok_or(())?;
@@ -133,12 +137,15 @@ mod imp {
                         Ok(v) => { out.push_str(&v.to_string()); out.push('\n'); }
                         Err(()) => return OStep { class: "runtime-error", output: out, value: String::new() },
                     },
+                    Stmt::Needs { .. } => {}
+                    Stmt::PrintExpr { value, .. } => { out.push_str(&value.to_string()); out.push('\n'); }
                     Stmt::Raw { .. } => { if expect == Expect::RuntimeError { return OStep { class: "runtime-error", output: out, value: String::new() }; } }
                 }
             }
             OStep { class: "ok", output: out, value: String::new() }
         }
         pub fn host(&mut self, f: &str, arg: i64) -> OStep {
+            if let Some(k) = self.imported.get(f) { return OStep { class: "ok", output: String::new(), value: (arg * k).to_string() }; }
             if !self.fns.contains_key(f) { return OStep { class: "runtime-error", output: String::new(), value: String::new() }; }
             let mut out = String::new();
             match self.call(f, arg, &mut out) {
@@ -149,9 +156,76 @@ mod imp {
     }
 
     // ------------------------------------------------------------------ generator
-    pub struct Gen { pub rng: Rng, pub n: u64, pub o: Oracle, pub boomed_host: bool }
+    /// a way an imported name can be written in a later input, what it evaluates to, and (functions) the
+    /// global name / multiplier for a host call
+    #[derive(Clone, Debug)]
+    pub struct Imp { pub text: String, pub value: i64, pub host: Option<(String, i64)> }
+    pub struct ModDef { pub name: String, pub fns: Vec<(String, i64)>, pub consts: Vec<(String, i64)> }
+    pub struct Gen { pub rng: Rng, pub n: u64, pub o: Oracle, pub boomed_host: bool,
+                     pub modules: Vec<ModDef>, pub forms_left: Vec<u8>, pub pending: Vec<Imp>, pub usable: Vec<Imp> }
     impl Gen {
-        pub fn new(seed: u64) -> Self { Gen { rng: Rng::new(seed), n: 0, o: Oracle::new(), boomed_host: false } }
+        pub fn new(seed: u64) -> Self {
+            let mut g = Gen { rng: Rng::new(seed), n: 0, o: Oracle::new(), boomed_host: false, modules: vec![], forms_left: vec![], pending: vec![], usable: vec![] };
+            // two small user modules (written next to the session's working directory by run_case)
+            for m in ["ua", "ub"] {
+                let k1 = g.rng.range_i64(2, 9); let k2 = g.rng.range_i64(2, 9); let c = g.rng.range_i64(10, 99);
+                g.modules.push(ModDef { name: m.to_string(), fns: vec![(format!("{}f", m), k1), (format!("{}h", m), k2)], consts: vec![(format!("{}k", m), c)] });
+            }
+            // import forms: 0 whole, 1 aliased, 2 selective (user modules); 3 whole, 4 aliased, 5 selective (std.math)
+            let mut forms: Vec<u8> = vec![0, 1, 2, 2, 3, 4, 5];
+            for i in (1..forms.len()).rev() { let j = g.rng.below(i as u64 + 1) as usize; forms.swap(i, j); }
+            g.forms_left = forms;
+            g
+        }
+        pub fn module_source(m: &ModDef) -> String {
+            let mut s = String::new();
+            for (f, k) in &m.fns { s.push_str(&format!("pub fn {}(x) {{ return x * {} }}\n", f, k)); }
+            for (c, v) in &m.consts { s.push_str(&format!("pub let {} = {}\n", c, v)); }
+            s
+        }
+        /// an import statement as its own input; every spelling it makes available must be used by a LATER input
+        fn import_step(&mut self) -> Option<Step> {
+            let form = self.forms_left.pop()?;
+            let mi = self.rng.below(self.modules.len() as u64) as usize;
+            let (mname, fns, consts) = { let m = &self.modules[mi]; (m.name.clone(), m.fns.clone(), m.consts.clone()) };
+            let arg = self.rng.range_i64(1, 9);
+            let mut new: Vec<Imp> = Vec::new();
+            let text = match form {
+                0 => { for (f, k) in &fns { new.push(Imp { text: format!("{}.{}({})", mname, f, arg), value: arg * k, host: Some((format!("{}::{}", mname, f), *k)) }); }
+                       for (c, v) in &consts { new.push(Imp { text: format!("{}.{}", mname, c), value: *v, host: None }); }
+                       format!("needs {}", mname) }
+                1 => { let al = self.fresh("q");
+                       for (f, k) in &fns { new.push(Imp { text: format!("{}.{}({})", al, f, arg), value: arg * k, host: Some((format!("{}::{}", al, f), *k)) }); }
+                       for (c, v) in &consts { new.push(Imp { text: format!("{}.{}", al, c), value: *v, host: None }); }
+                       format!("needs {} as {}", mname, al) }
+                2 => { let (f, k) = fns[self.rng.below(fns.len() as u64) as usize].clone(); let (c, v) = consts[0].clone();
+                       new.push(Imp { text: format!("{}({})", f, arg), value: arg * k, host: Some((f.clone(), k)) });
+                       new.push(Imp { text: c.clone(), value: v, host: None });
+                       format!("needs {}, {} from {}", f, c, mname) }
+                3 => { new.push(Imp { text: "math.floor(2.5)".into(), value: 2, host: None }); new.push(Imp { text: "math.abs(-3)".into(), value: 3, host: None });
+                       "needs std.math".to_string() }
+                4 => { let al = self.fresh("mq");
+                       new.push(Imp { text: format!("{}.floor(2.5)", al), value: 2, host: None }); new.push(Imp { text: format!("{}.abs(-3)", al), value: 3, host: None });
+                       format!("needs std.math as {}", al) }
+                _ => { new.push(Imp { text: "floor(7.5)".into(), value: 7, host: None }); new.push(Imp { text: "abs(-4)".into(), value: 4, host: None });
+                       "needs floor, abs from std.math".to_string() }
+            };
+            for i in &new { if let Some((h, k)) = &i.host { self.o.imported.insert(h.clone(), *k); } }
+            self.pending.extend(new.iter().cloned());
+            self.usable.extend(new);
+            Some(Step::Input { stmts: vec![Stmt::Needs { text }], expect: Expect::Ok })
+        }
+        /// a later input (or host call) that uses imported spellings
+        fn use_step(&mut self) -> Step {
+            let imp = if !self.pending.is_empty() { let i = self.rng.below(self.pending.len() as u64) as usize; self.pending.remove(i) }
+                      else { let i = self.rng.below(self.usable.len() as u64) as usize; self.usable[i].clone() };
+            if let Some((h, _)) = &imp.host { if self.rng.chance(1, 3) { return Step::Host { f: h.clone(), arg: self.rng.range_i64(0, 9), cached: self.rng.chance(1, 3) }; } }
+            let mut stmts = vec![Stmt::PrintExpr { text: imp.text.clone(), value: imp.value }];
+            if !self.usable.is_empty() && self.rng.chance(1, 2) { let i = self.rng.below(self.usable.len() as u64) as usize; let u = self.usable[i].clone(); stmts.push(Stmt::PrintExpr { text: u.text, value: u.value }); }
+            let av = self.all_vars();
+            if !av.is_empty() && self.rng.chance(1, 2) { let v = self.pick(&av); stmts.insert(0, Stmt::PrintVar { name: v }); }
+            Step::Input { stmts, expect: Expect::Ok }
+        }
         fn fresh(&mut self, p: &str) -> String { self.n += 1; format!("{}{}", p, self.n) }
         fn int_vars(&self, mutable_only: bool) -> Vec<String> {
             let mut v: Vec<String> = self.o.vars.iter().filter(|(k, (val, m))| matches!(val, Val::Int(_)) && (!mutable_only || *m) && k.as_str() != "zero" && !k.starts_with("junk"))
@@ -231,18 +305,21 @@ mod imp {
             let names: HashSet<String> = self.o.fns.keys().cloned().collect();
             self.o.fns.retain(|_, d| match &d.kind { FnKind::CallF(t, _) => names.contains(t), _ => true });
         }
-        pub fn step(&mut self, first: bool) -> Step {
+        pub fn step(&mut self, first: bool, flush: bool) -> Step {
             if first {
                 return Step::Input { stmts: vec![Stmt::Let { name: "zero".into(), mutable: true, val: Val::Int(0) },
                                                  Stmt::Let { name: "g0".into(), mutable: true, val: Val::Int(7) },
                                                  Stmt::Def { name: "f0".into(), def: FnDef { tag: "T0".into(), kind: FnKind::AddK(1) } }], expect: Expect::Ok };
             }
+            if flush { return self.use_step(); }
+            if !self.forms_left.is_empty() && self.rng.chance(1, 9) { if let Some(s) = self.import_step() { return s; } }
+            if !self.usable.is_empty() && (self.rng.chance(1, 8) || (!self.pending.is_empty() && self.rng.chance(1, 3))) { return self.use_step(); }
             let r = self.rng.below(100);
             let fs_all = self.fns(false); let fs = self.fns(true);
             if r < 14 && !fs_all.is_empty() {
                 // host call; a call into a failing function only when asked for (it leaves frames behind)
                 let booms: Vec<String> = fs_all.iter().filter(|f| self.fails(&self.o.fns[*f])).cloned().collect();
-                let f = if !booms.is_empty() && self.rng.chance(1, 3) { self.pick(&booms) } else if !fs.is_empty() { self.pick(&fs) } else { return self.step(false) };
+                let f = if !booms.is_empty() && self.rng.chance(1, 3) { self.pick(&booms) } else if !fs.is_empty() { self.pick(&fs) } else { return self.step(false, false) };
                 return Step::Host { f, arg: self.rng.range_i64(0, 9), cached: self.rng.chance(1, 3) };
             }
             if r < 17 { return Step::Host { f: self.fresh("nosuch"), arg: 1, cached: self.rng.chance(1, 2) }; }
@@ -395,13 +472,23 @@ mod imp {
         let nsteps = 5 + g.rng.below(10) as usize;
         let mut kinds: HashMap<&'static str, usize> = HashMap::new();
         let mut stale_entry = false;
-        for k in 0..nsteps {
-            let step = g.step(k == 0);
+        // the session's working directory: `needs <module>` in a REPL input is resolved relative to the current
+        // directory (driver/src/api/repl.rs: cwd.join("repl.aelys"))
+        let dir = std::env::temp_dir().join(format!("hx_repl_{}_{}", std::process::id(), seed));
+        let _ = std::fs::create_dir_all(&dir);
+        for m in &g.modules { let _ = std::fs::write(dir.join(format!("{}.aelys", m.name)), Gen::module_source(m)); }
+        let _ = std::env::set_current_dir(&dir);
+        let mut k = 0usize;
+        while k < nsteps || (!g.pending.is_empty() && k < nsteps + 16) {
+            let step = g.step(k == 0, k >= nsteps);
+            k += 1;
             let mut ops: Vec<String> = Vec::new();
             let (r, o): (StepOut, OStep);
             match &step {
                 Step::Input { stmts, expect } => {
                     *kinds.entry(match expect { Expect::Ok => "input-ok", Expect::CompileError => "input-compile-error", Expect::RuntimeError => "input-runtime-error" }).or_insert(0) += 1;
+                    if stmts.iter().any(|s| matches!(s, Stmt::Needs { .. })) { *kinds.entry("input-import").or_insert(0) += 1; }
+                    if stmts.iter().any(|s| matches!(s, Stmt::PrintExpr { .. })) { *kinds.entry("input-uses-imported-name").or_insert(0) += 1; }
                     let src = render(stmts);
                     let before = g.o.clone();
                     r = repl_input(&mut vm, &src, opt);
@@ -413,6 +500,10 @@ mod imp {
                         // the unit's top-level function: the one unnamed function object that is new
                         let cands: Vec<(usize, usize)> = live_functions(&vm).into_iter().filter(|(i, a, n)| n.is_none() && !seen_tops.contains(&(*i, *a))).map(|(i, a, _)| (i, a)).collect();
                         for c in &cands { seen_tops.insert(*c); }
+                        // an input with `needs` also allocates the top-level function of every module it loads; the input's
+                        // own unit is allocated last
+                        let has_needs = stmts.iter().any(|s| matches!(s, Stmt::Needs { .. }));
+                        let cands: Vec<(usize, usize)> = if has_needs && cands.len() > 1 { vec![*cands.iter().max().unwrap()] } else { cands };
                         if cands.len() == 1 {
                             let top = function_at(&vm, cands[0].0).unwrap();
                             let ltop = lay_of(&top);
@@ -434,6 +525,8 @@ mod imp {
                                         ops.push(format!("OSetIdx {} {}", top_idx(name, &mut problems), 2_000_000 + def.tag.get(1..).and_then(|t| t.parse::<i64>().ok()).unwrap_or(0))) }
                                     Stmt::PrintVar { name } => ops.push(format!("OPrintIdx {} 0", top_idx(name, &mut problems))),
                                     Stmt::PrintLit { .. } => {}
+                                    Stmt::Needs { .. } => {}
+                                    Stmt::PrintExpr { value, .. } => ops.push(format!("OPrintConst {}", zc(*value))),
                                     Stmt::Raw { .. } => { ops.push("OFail".into()); failed = true; }
                                     Stmt::PrintApply { a, f, arg } => {
                                         match fn_lay.get(a).cloned() {
@@ -471,6 +564,13 @@ mod imp {
                     stale_entry = vm.verif_frames_len() > 0;
                     r = host_call(&mut vm, f, *arg, *cached);
                     o = g.o.host(f, *arg);
+                    if let Some(kmul) = g.o.imported.get(f).copied() {
+                        // a function of an imported module: its layout is read from the function object the name denotes
+                        *kinds.entry("host-call-imported").or_insert(0) += 1;
+                        let lay = vm.get_global(f).and_then(|v| v.as_ptr()).and_then(|p| function_at(&vm, p)).map(|fun| lay_of(&fun));
+                        if let Some(l) = lay { ops.push(format!("OHostCall {} {}", coq_layout(&l, &mut names), cached)); ops.push("OReturn".into()); }
+                        ops.push(format!("OPrintConst {}", zc(arg * kmul)));
+                    }
                     if def.is_some() {
                         let fns_now = { let mut m = g.o.fns.clone(); if let Some(d) = def.clone() { m.insert(f.clone(), d); } m };
                         let (o2, _f2) = emit_call(f, *arg, 0, &fns_now, &fn_lay, &mut names, &mut problems, Some(*cached));
@@ -493,6 +593,8 @@ mod imp {
             let same = real_steps.last() == oracle_steps.last() || (matches!(step, Step::Input { .. }) && class3(&r.class) == "ok" && o.class == "ok" && r.output == o.output);
             if !same || stale_entry { break; }
         }
+        let _ = std::env::set_current_dir(std::env::temp_dir());
+        let _ = std::fs::remove_dir_all(&dir);
         let mut ks: Vec<String> = kinds.iter().map(|(k, v)| format!("{}={}", k, v)).collect();
         ks.sort();
         CaseOut { query: format!("[{}]", q_steps.join("; ")), observed: format!("[{}]", obs_steps.join("; ")), real_steps: real_steps.join(" ;; "),
